@@ -50,6 +50,10 @@ class _Continue(Exception):
     pass
 
 
+class GenList(list):
+    """Eagerly evaluated generator (generator function result or generator expression)."""
+
+
 class ClassRef:
     def __init__(self, name):
         self.name = name
@@ -179,7 +183,8 @@ class Interp:
         }
         self.class_call_hook = None
         # classes whose instances (Obj of that kind) resolve attributes through the repository source
-        self.instance_classes = {"MultiVector": "multivector.MultiVector", "TapeRecorder": "taperecorder.TapeRecorder"}
+        self.instance_classes = {"MultiVector": "multivector.MultiVector", "TapeRecorder": "taperecorder.TapeRecorder",
+                                 "GraphWidget": "graph.GraphWidget"}
 
     # ------------------------------------------------------------------ builtins
     def _len(self, v):
@@ -188,6 +193,10 @@ class Interp:
         if isinstance(v, Obj):
             if "__len__" in v.methods:
                 return v.methods["__len__"]()
+            if v.kind in self.instance_classes:
+                d = self._class_def(v.kind, "__len__")
+                if isinstance(d, ast.FunctionDef):
+                    return self.call_function(d, [v], {}, {}, self.instance_classes[v.kind].split(".")[0])
             return Unk("len")
         return len(v)
 
@@ -251,7 +260,7 @@ class Interp:
             if isinstance(v, Unk):
                 return Unk("isinstance")
             if name in PY_TYPES:
-                if isinstance(v, PY_TYPES[name]):
+                if isinstance(v, PY_TYPES[name]) and not (name == "list" and isinstance(v, GenList)):
                     return True
                 continue
             if name in ("Callable",):
@@ -264,6 +273,10 @@ class Interp:
                 continue
             if name == "Mapping":
                 if isinstance(v, dict):
+                    return True
+                continue
+            if name == "GeneratorType":
+                if isinstance(v, GenList):
                     return True
                 continue
             if isinstance(v, (int, float, str, tuple, list, dict, set, Fraction, range, type(None), Closure, PyFunc, Bound)):
@@ -464,6 +477,8 @@ class Interp:
                 return v.methods["__getattr__"](name)
             if v.kind in self.instance_classes:
                 return self._instance_attr(v, name, node)
+            if v.kind.startswith("module:") and (name[:1].isupper() or name in ("ndarray",)):
+                return ClassRef(name)
             return Unk(f"{v.kind}.{name}")
         if isinstance(v, Unk):
             return Unk(f"{v.desc}.{name}")
@@ -486,6 +501,8 @@ class Interp:
             if v.name == "object" and name == "__new__":
                 return PyFunc(lambda cls, *a, **k: Obj(cls.name if isinstance(cls, ClassRef) else "object"), "object.__new__", True)
             return Unk(f"{v.name}.{name}")
+        if isinstance(v, (list, tuple, dict, str)) and name == "__class__":
+            return ClassRef(type(v).__name__ if not isinstance(v, GenList) else "generator")
         if isinstance(v, (list, tuple, dict, str)) and hasattr(v, name):
             return PyFunc(getattr(v, name), name, True)
         if isinstance(v, (int, float, Fraction)):
@@ -557,6 +574,8 @@ class Interp:
                 r = self.class_call_hook(f.name, args, kwargs)
                 if r is not NotImplemented:
                     return r
+            if f.name in ("list", "tuple") and len(args) == 1 and isinstance(args[0], (list, tuple, GenList)):
+                return list(args[0]) if f.name == "list" else tuple(args[0])
             if f.name == "str" and len(args) == 1 and not kwargs:
                 txt = _fmt(args[0])
                 return txt if txt is not None else Unk("str")
@@ -613,11 +632,14 @@ class Interp:
             e = Env(env, closure_env, module, self)
             if isinstance(fn, ast.Lambda):
                 return self.eval(fn.body, e)
+            is_gen = any(isinstance(n, (ast.Yield, ast.YieldFrom)) for n in _walk_shallow_body(fn))
+            if is_gen:
+                e.yielded = GenList()
             try:
                 self.exec_block(fn.body, e)
             except _Return as r:
-                return r.value
-            return None
+                return e.yielded if is_gen else r.value
+            return e.yielded if is_gen else None
         finally:
             self.depth -= 1
 
@@ -873,6 +895,16 @@ class Interp:
             return "".join(parts)
         if isinstance(node, (ast.ListComp, ast.GeneratorExp, ast.SetComp, ast.DictComp)):
             return self.comprehension(node, env)
+        if isinstance(node, ast.Yield):
+            v = self.eval(node.value, env) if node.value is not None else None
+            env.yield_target().append(v)
+            return None
+        if isinstance(node, ast.YieldFrom):
+            v = self.eval(node.value, env)
+            if isinstance(v, (Unk, T, Obj)):
+                raise NoValue("yield from unknown iterable")
+            env.yield_target().extend(list(v))
+            return None
         if isinstance(node, ast.Starred):
             raise NoValue("starred expression")
         raise NoValue(f"expression kind {type(node).__name__}: {un(node)[:60]}")
@@ -951,6 +983,8 @@ class Interp:
             return dict(results)
         if isinstance(node, ast.SetComp):
             return set(results)
+        if isinstance(node, ast.GeneratorExp):
+            return GenList(results)
         return results
 
     # ------------------------------------------------------------------ entry point
@@ -968,6 +1002,16 @@ class Interp:
             raise NoValue("python recursion limit")
 
 
+def _walk_shallow_body(fn):
+    stack = list(fn.body)
+    while stack:
+        n = stack.pop()
+        if isinstance(n, (ast.FunctionDef, ast.AsyncFunctionDef, ast.ClassDef, ast.Lambda)):
+            continue
+        yield n
+        stack.extend(ast.iter_child_nodes(n))
+
+
 def _load(target):
     t = ast.parse(un(target), mode="eval").body
     return t
@@ -981,6 +1025,13 @@ class Env:
         d = dict(self.closure)
         d.update(self.local)
         return _Live(self)
+
+    yielded = None
+
+    def yield_target(self):
+        if self.yielded is None:
+            raise NoValue("yield outside a generator function")
+        return self.yielded
 
     def interp_note(self, msg):
         self.interp.trace.append("note:" + msg)
